@@ -516,6 +516,68 @@ dow_limit_p(
 
 /* recurrence helpers */
 static void
+lim_cand(
+	bitint383_t *restrict cand, unsigned int y,
+	bituint31_t mon, bitint31_t dom, bitint63_t wk, const bitint383_t *doy,
+	const bitint447_t *pdow)
+{
+/* keep the candidates that pass every one of BYMONTH, BYMONTHDAY, BYWEEKNO
+ * and BYYEARDAY, RFC 5545 applies them one after the other */
+	bitint383_t res = {0U};
+	int c;
+
+	for (bitint_iter_t ci = 0UL; (c = bi383_next(&ci, cand), ci);) {
+		const struct md_s md = unpack_cand(c);
+		const int ndim = (int)__get_ndom(y, md.m);
+		const int nyd = 365 + !(y % 4U);
+		const int yd = (int)ymd_get_yd(y, md.m, md.d);
+
+		if (bui31_has_bits_p(mon) && !bui31_has_bit_p(mon, md.m)) {
+			continue;
+		} else if (bi31_has_bits_p(dom) &&
+			   !bi31_has_bit_p(dom, (int)md.d) &&
+			   !bi31_has_bit_p(dom, (int)md.d - ndim - 1)) {
+			continue;
+		}
+		if (bi383_has_bits_p(doy)) {
+			bool okp = false;
+			int k;
+
+			for (bitint_iter_t di = 0UL;
+			     !okp && (k = bi383_next(&di, doy), di);) {
+				okp = k == yd || k == yd - nyd - 1;
+			}
+			if (!okp) {
+				continue;
+			}
+		}
+		if (bi63_has_bits_p(wk)) {
+			const echs_wday_t w = ymd_get_wday(y, md.m, md.d);
+			bool okp = false;
+			int k;
+
+			if (bi447_has_bits_p(pdow) &&
+			    (k = bi447_next(&(bitint_iter_t){0UL}, pdow)) != (int)w) {
+				/* not DTSTART's weekday */
+				continue;
+			}
+
+			for (bitint_iter_t wi = 0UL;
+			     !okp && (k = bi63_next(&wi, wk), wi);) {
+				const struct md_s x = ywd_to_md(y, k, w);
+				okp = x.m == md.m && x.d == md.d;
+			}
+			if (!okp) {
+				continue;
+			}
+		}
+		ass_bi383(&res, c);
+	}
+	*cand = res;
+	return;
+}
+
+static void
 fill_yly_ywd(
 	bitint383_t *restrict cand, unsigned int y,
 	const bitint63_t woy, const bitint447_t *dow)
@@ -1164,9 +1226,10 @@ rrul_fill_yly(echs_instant_t *restrict tgt, size_t nti, rrulsp_t rr)
 	}
 
 	if (!wd_mask && bi63_has_bits_p(rr->wk) &&
-	    !nm && !nd && !bi383_has_bits_p(&rr->doy) &&
+	    !nd && !bi383_has_bits_p(&rr->doy) &&
 	    proto.m && proto.m <= 12U) {
-		/* BYWEEKNO on its own, the weekday is DTSTART's then */
+		/* BYWEEKNO without anything to pick the day,
+		 * the weekday is DTSTART's then */
 		ass_bi447(&pdow, ymd_get_wday(proto.y, proto.m, proto.d));
 	}
 
@@ -1244,6 +1307,14 @@ rrul_fill_yly(echs_instant_t *restrict tgt, size_t nti, rrulsp_t rr)
 		} else {
 			fill_yly_ymd(
 				cand, srcsca, y, m, nm, d, nd, &rr->dow, wd_mask);
+		}
+
+		if (srcsca == SCALE_GREGORIAN &&
+		    !bi383_has_bits_p(&rr->easter) &&
+		    (bi63_has_bits_p(rr->wk) || bi383_has_bits_p(&rr->doy))) {
+			/* weeks and year days have been expanded on their own
+			 * account, the parts are meant to limit one another */
+			lim_cand(cand, y, rr->mon, rr->dom, rr->wk, &rr->doy, &pdow);
 		}
 
 		/* limit by setpos */
